@@ -136,6 +136,15 @@ def _strip_tb(e):
 _GC_READY = False
 
 
+def _unraisable(args):
+    if isinstance(args.exc_value, SimCrash):
+        return
+    sys.__unraisablehook__(args)
+
+
+sys.unraisablehook = _unraisable
+
+
 def deterministic_gc():
     """Automatic cyclic GC runs at allocation-count thresholds, i.e. at times no seed controls.
     Freeze what exists, switch it off, and collect explicitly at step boundaries instead."""
@@ -211,6 +220,10 @@ class World:
         finally:
             out.io, out.fired, out.nprims = fs.end_call()
             sys.stdout = old_stdout
+        if "crash" in out.fired and not out.crashed:
+            # the crash fired inside a finaliser (close() from __del__), where Python swallows even
+            # BaseException: the process is dead all the same
+            out.crashed, out.ok, out.value, out.exc = True, False, None, None
         self.stats["api_calls"] += 1
         if out.fired:
             self.stats["faulted_calls"] += 1
